@@ -27,6 +27,8 @@ import (
 
 var effectsSchema = []defSpec{
 	{"reachable", "List String"},
+	{"reachableFromEvaluate", "List String"},
+	{"appendOrigins", "List (String × String × String)"},
 	{"storeSites", "List (String × String × String)"},
 	{"globals", "List (String × String)"},
 	{"evaluatorFields", "List String"},
@@ -307,6 +309,84 @@ func extractEffects(files map[string]*srcFile) (map[string]lval, []string) {
 	}
 	sort.Strings(reachable)
 	vals["reachable"] = lStrs(reachable)
+
+	// ---- reachable from the evaluation entry points only (Evaluate / Execute)
+	reachedE := map[*effNode]bool{}
+	var workE []*effNode
+	for _, root := range []string{"Evaluator.Evaluate", "Filter.Execute"} {
+		for _, n := range byKey[root] {
+			if !n.inAst && !reachedE[n] {
+				reachedE[n] = true
+				workE = append(workE, n)
+			}
+		}
+	}
+	for len(workE) > 0 {
+		n := workE[len(workE)-1]
+		workE = workE[:len(workE)-1]
+		for _, m := range edges(n) {
+			if !reachedE[m] {
+				reachedE[m] = true
+				workE = append(workE, m)
+			}
+		}
+	}
+	var fromEval []string
+	for _, n := range nodes {
+		if reachedE[n] {
+			fromEval = append(fromEval, n.key)
+		}
+	}
+	sort.Strings(fromEval)
+	vals["reachableFromEvaluate"] = lStrs(fromEval)
+
+	// ---- where the slices that are appended to come from: every right-hand side assigned to a
+	// local identifier that is the first argument of an append call in a reachable function
+	var origins [][3]string
+	for _, n := range rnodes {
+		targets := map[string]bool{}
+		ast.Inspect(n.fd.Body, func(x ast.Node) bool {
+			if c, ok := x.(*ast.CallExpr); ok {
+				if id, ok := c.Fun.(*ast.Ident); ok && id.Name == "append" && len(c.Args) > 0 {
+					if a, ok := c.Args[0].(*ast.Ident); ok {
+						targets[a.Name] = true
+					}
+				}
+			}
+			return true
+		})
+		seen := map[string]bool{}
+		ast.Inspect(n.fd.Body, func(x ast.Node) bool {
+			as, ok := x.(*ast.AssignStmt)
+			if !ok {
+				return true
+			}
+			for i, l := range as.Lhs {
+				id, ok := l.(*ast.Ident)
+				if !ok || !targets[id.Name] || i >= len(as.Rhs) {
+					continue
+				}
+				txt := n.sf.oneLine(as.Rhs[i])
+				k := id.Name + "\x00" + txt
+				if !seen[k] {
+					seen[k] = true
+					origins = append(origins, [3]string{n.key, id.Name, txt})
+				}
+			}
+			return true
+		})
+		// parameters that are appended to are reported as such
+		if n.fd.Type.Params != nil {
+			for _, f := range n.fd.Type.Params.List {
+				for _, nm := range f.Names {
+					if targets[nm.Name] {
+						origins = append(origins, [3]string{n.key, nm.Name, "<parameter>"})
+					}
+				}
+			}
+		}
+	}
+	vals["appendOrigins"] = lTriples(origins)
 
 	// ---- store sites
 	var sites [][3]string
